@@ -10,6 +10,12 @@
           structure, its iterations, and the resumed tear-down.  The EXTRACTED Gallina model
           (harness/C03/mdrv.ml + coq/C03/extracted/iter.ml) reads only the dumped shape, runs the
           model's iterators/tear on that heap, and must print the same lines.
+  tie 2 : translator tools/c2nav.py (wired by tools/vnav.py): the ten navigation functions, tear and its helper new_child of
+          src/avl.c and src/rbt.c are REGENERATED from the current sources (clang JSON AST; both node layouts: packed parent
+          word and plain parent field, the accessor recognised by its own definition) into Gallina over the model's reader /
+          state vocabulary, and harness/C03/TieNav.v proves each generated function equal to the model of IterDefs.v for
+          every reader, fuel and argument (22 tie theorems per layout, re-checked on every run).  The foreach / fortear
+          MACROS of the headers (the loops around these functions) are not translated: they are tied by the C harness only.
   oracle: the property itself evaluated on what the C printed (recursive traversals of the dump,
           ascending keys, next/prev inverse, exactly-once, children before parents, remaining
           structure is the restriction of the tree, final root null); ASan/UBSan aborts, crashes
@@ -22,9 +28,10 @@ import re
 from pathlib import Path
 
 try:
-    from tools import vlib
+    from tools import vlib, vnav
 except ImportError:  # pragma: no cover
     import vlib
+    import vnav
 
 H = vlib.VERIF / "harness" / "C03"
 CORPUS = vlib.VERIF / "corpus" / "C03"
@@ -792,7 +799,12 @@ def run(ctx):
     tasks = plan(ctx)
     nw = max(2, min(vlib.NPROC // 2, 8))
     with ProcessPoolExecutor(max_workers=nw) as ex:
-        results = list(ex.map(work, [(t, str(cbin), str(mbin)) for t in tasks]))
+        pending = ex.map(work, [(t, str(cbin), str(mbin)) for t in tasks])
+        # second tie (translator), while the workers run the correspondence: the navigation functions and tear of avl.c / rbt.c are
+        # REGENERATED from the current sources by tools/c2nav.py (both node layouts) and proved equal to the model of IterDefs.v
+        # (harness/C03/TieNav.v) for every reader, fuel and argument
+        vnav.nav_translate_and_tie(ctx)
+        results = list(pending)
     ctx.log("harness and model ran: %d tasks on %d workers" % (len(tasks), nw))
 
     stats, sizes, shapes_seen, dist = {}, {}, set(), {}
@@ -868,7 +880,8 @@ def run(ctx):
     ctx.cov["trusted_base"] += [
         "extraction (ExtrOcamlBasic only) and harness/C03/mdrv.ml (int<->positive/nat, parsing, printing)",
         "harness/C03/drv.c + body.h (builds the trees, dumps left/right/parent, runs the macros); ASan/UBSan as observers of reads after free",
-        "C semantics / compiler; the pointer code is tied to the model by differential comparison, not proved"]
+        "C semantics / compiler; the iterator macros of the headers are tied to the model by differential comparison, not proved "
+        "(the navigation functions and tear they call are additionally tied by the translator c2nav)"]
     if missing:
         ctx.notes.append("model branches not reached in this run: " + ", ".join(missing))
     ctx.log("compared %d trees (%d lines, %d distinct shapes), %d disagreements, branches not reached: %s"
@@ -902,11 +915,22 @@ META = {
             "(*next = x, as the header documents): never stuck, every node exactly once and after all nodes of its subtrees, in "
             "exactly the order postorder(subtree of x) followed, for each ancestor in turn, by the postorder of its other subtree "
             "(left or right) and the ancestor; tree, saved next and heap empty at the end; a tree of exactly the rest after ANY k "
-            "steps, resumable. Tie: extracted model vs the real iterator macros on "
-            "real AVL and RB trees plus hand-linked shapes, ASan with free() in tear.",
-    "note": "Trusted: Coq kernel; extraction (ExtrOcamlBasic only) + drivers; the navigation functions are a hand "
-            "transcription run on the shape dumped from the C (differential testing on all shapes <= 7 (thorough 10) nodes, "
-            "all insertion orders of <= 6 (7) keys, large directed and random shapes); 'the C reads nothing freed' is observed "
-            "by ASan, proved of the model only; removing a node from the model heap stands for the caller's free(). No axioms.",
-    "technique": "Rocq proof (zipper contexts over a heap representation predicate, structural induction) + extracted-model vs C iterator-sequence correspondence",
+            "steps, resumable. Tie 1: extracted model vs the real iterator macros on "
+            "real AVL and RB trees plus hand-linked shapes, ASan with free() in tear. Tie 2 (translator tools/c2nav.py): "
+            "a_avl_/a_rbt_ head, tail, next, prev, pre_next, pre_prev, post_head, post_tail, post_next, post_prev and tear (with "
+            "new_child) are regenerated from the current avl.c / rbt.c / avl.h / rbt.h on every run, in both node layouts, and "
+            "each is proved equal to the model function the theorems are about, for every heap, fuel and argument.",
+    "note": "Trusted: Coq kernel; extraction (ExtrOcamlBasic only) + drivers; the translator tools/c2nav.py as a reading of the "
+            "C (pointers = option id, null or dangling dereference = Stuck, `parent_ & ~tag bits` / `parent` = the model's parent "
+            "field, root->node and the caller's *next as separate cells that do not alias the nodes, one unit of fuel per loop "
+            "iteration) - not as a statement about the model: its output is proved equal to the hand-written model on every run "
+            "(44 tie theorems = 22 functions x 2 layouts, closed under the global context), so a change of the navigation code "
+            "breaks a named tie theorem, and independently the model is run on the shape dumped from the C (differential "
+            "testing on all shapes <= 7 (thorough 10) nodes, all insertion orders of <= 6 (7) keys, large directed and random "
+            "shapes). Correspondence-only (not translated): the foreach / foreach_reverse / pre / post / fortear MACROS of avl.h and "
+            "rbt.h (the model's iterate / fortear loops around the step functions), the lower-case macro forms, and free() in "
+            "the caller's loop body. 'The C reads nothing freed' is observed by ASan and, for the translated functions, follows "
+            "from the tie (a read of a removed id is Stuck in the generated code too); removing a node from the model heap "
+            "stands for the caller's free(). No axioms.",
+    "technique": "Rocq proof (zipper contexts over a heap representation predicate, structural induction) + translator tie (C navigation functions regenerated into Gallina and proved equal to the model on every run) + extracted-model vs C iterator-sequence correspondence",
 }
